@@ -16,7 +16,10 @@ LEVEL_TEXT = ("For all versions 0..7 and all argument values: the backend call c
               "re-checks the proofs, and compares backend call logs, returned values and errnos of 20 methods x 8 versions x generated arguments/answers with the model.")
 LEVEL_NOTE = ("Composed methods (GetXattr/ListXattrs, WalkGetAttr below version 2) are modelled as functions (Client/Composed.v) with theorems; their tie to the source is the "
               "statement text in the reviewed table. The handler table is proved equal to the interpretation of HandlerGen's backend-call events for 22 T-messages + Tremove/Tclunk; "
-              "the handlers of Twalk/Twalkgetattr/Txattrwalk/Tattach are hand-modelled and tied by the differential only. Result values are compared field by field. "
+              "for Twalk/Twalkgetattr/Txattrwalk/Tattach the set of backend calls/delegations/lookups in handlers.go is tied (C03_walk_handlers_events) but their control flow "
+              "(one walkOne per component, the ENOSYS fallback WalkGetAttr -> Walk+GetAttr, Close of the walked file when GetAttr fails, the branch on len(t.Name), Attach+GetAttr) "
+              "is modelled by hand in ClientModel.handler_calls and tied by the differential only (success paths and first-failure paths with a recording backend). "
+              "Result values are compared field by field. "
               "ExtractErrno theorems are stated for chains whose syscall.Errno values are non-zero (errno 0 is not an error value; the model reproduces what the code does with it). "
               "Trusted: Coq kernel + vm_compute, go2coq ClientGen, Go's errors.Is/As semantics as modelled by Errs.find.")
 DESIGN_REF = "6/C03"
